@@ -473,11 +473,11 @@ type SpecFile struct {
 	Ghosts    []*GhostDef
 }
 
-var clauseHead = regexp.MustCompile(`^(requires|domain|ensures|hint|panics|returns|modifies|assume|invariant)((?:\.[A-Za-z0-9_]+)?)((?:\[[A-Za-z0-9, ]+\])?)\s+(.*)$`)
+var clauseHead = regexp.MustCompile(`^(requires|domain|ensures|check|hint|panics|returns|onpanic|modifies|assume|invariant)((?:\.[A-Za-z0-9_]+)?)((?:\[[A-Za-z0-9, ]+\])?)\s+(.*)$`)
 
 var keywords = map[string]bool{
 	"func": true, "iface": true, "extern": true, "pure": true, "ghost": true, "props": true,
-	"requires": true, "domain": true, "ensures": true, "hint": true, "panics": true, "returns": true, "modifies": true,
+	"requires": true, "domain": true, "ensures": true, "check": true, "hint": true, "onpanic": true, "panics": true, "returns": true, "modifies": true,
 	"assume": true, "invariant": true, "let": true, "loop": true, "nopanic": true,
 	"trusted": true, "inline": true, "nonblocking": true, "reveal": true, "unroll": true, "params": true, "noverify": true,
 }
@@ -765,8 +765,12 @@ func collectCallKeys(e Expr, out map[string]bool) {
 	case *EQuant:
 		collectCallKeys(x.Body, out)
 	case *ECall:
-		if (x.Fn == "calls" || x.Fn == "dcalls" || x.Fn == "arg" || x.Fn == "ncalls" || x.Fn == "ret") && len(x.Args) > 0 {
+		if (x.Fn == "calls" || x.Fn == "dcalls" || x.Fn == "darg" || x.Fn == "dret" || x.Fn == "arg" || x.Fn == "argat" || x.Fn == "ncalls" || x.Fn == "ret" || x.Fn == "retat") && len(x.Args) > 0 {
 			out[exprKey(x.Args[0])] = true
+		}
+		if x.Fn == "lastcall" && len(x.Args) == 3 {
+			out[exprKey(x.Args[0])] = true
+			out["lastcall:"+exprKey(x.Args[0])+":"+exprKey(x.Args[1])] = true
 		}
 		for _, a := range x.Args {
 			collectCallKeys(a, out)
